@@ -206,7 +206,10 @@ impl Space for InstantsZoned {
         let minutes = i as i64 - 1439;
         let off = minutes * 60;
         let otext = offset_text(off);
-        let tz = TimeZone::try_from_str(&otext).unwrap();
+        let Some(tz) = crate::imp::zone_of(&otext) else {
+            out.unjudged += 1; // a refusal of the offset text is reported by the identifier round trip
+            return;
+        };
         out.nontrivial += 1;
         for t in [1_614_834_367_008_009_010i128, -86_399_999_998_997_996, 0, 253_402_300_799_999_999_999, -62_198_755_200_000_000_000, tmc_ref::r1::MAX_INSTANT_NS, -tmc_ref::r1::MAX_INSTANT_NS, -tmc_ref::r1::MAX_INSTANT_NS + 1] {
             let local = t + off as i128 * 1_000_000_000;
@@ -523,7 +526,10 @@ impl Space for ZonedNamed {
         };
         out.nontrivial += 1;
         let provider = temporal_rs::tzdb::FsTzdbProvider::default();
-        let tz = TimeZone::try_from_str(name).unwrap();
+        let Some(tz) = crate::imp::zone_of(name) else {
+            out.unjudged += 1;
+            return;
+        };
         const NS: i128 = 1_000_000_000;
         let lo = self.tier.pick(days_from_civil(1880, 1, 1), days_from_civil(1, 1, 1)) as i128 * NS_PER_DAY;
         let hi = days_from_civil(2037, 12, 31) as i128 * NS_PER_DAY;
